@@ -452,8 +452,12 @@ def finish(ctx, level, coverage, assumptions):
           "violations": len({v["sig"] for v in new})}
     if ctx.notes:
         ev["coverage"]["notes"] = ctx.notes
-    os.makedirs(os.path.join(ROOT, "evidence"), exist_ok=True)
-    with open(os.path.join(ROOT, "evidence", ctx.pid + ".json"), "w") as f:
+    # evidence describes runs against /repo; a run against another tree (VERIF_REPO: a scratch worktree with a seeded
+    # change) keeps its file in the work directory and leaves the committed evidence alone
+    evdir = os.path.join(ROOT, "evidence") if os.path.realpath(os.environ.get("VERIF_REPO", "/repo")) == "/repo" \
+        else os.path.join(WORK, "evidence")
+    os.makedirs(evdir, exist_ok=True)
+    with open(os.path.join(evdir, ctx.pid + ".json"), "w") as f:
         json.dump(ev, f, indent=1, sort_keys=True)
         f.write("\n")
     log("[%s] %s tier, seed %d: %d new violation signature(s), %d known finding(s) hit, %.0fs" %
